@@ -16,6 +16,21 @@ class BuiltinMixin(object):
             return self.call_spec(name[5:], args)
         if name.startswith("exc:"):
             return ExcV(name[4:], tuple(args))
+        if name.startswith("clib:"):
+            _, relpath, fname = name.split(":")
+            from .cfront import CFront
+            return CFront(self).call_from_python(relpath, fname, args)
+        if name == "ffi.new_handle":
+            return args[0]
+        if name == "ffi.from_handle":
+            h = args[0]
+            isnull = self.as_bool_term(self.identical(h, None))
+            d = isnull if isinstance(isnull, bool) else ctx.branch(isnull)
+            if d:
+                raise RaiseSig(ExcV("RuntimeError"))
+            return h
+        if name == "ffi.gc":
+            return args[0]
         if name == "noop" or name.startswith("logging.") or name.startswith("noop-obj") or name == "print" \
                 or name.startswith("warnings."):
             return BuiltinV("noop-obj")
